@@ -350,10 +350,13 @@ impl LocalPeerService {
                     }
                 }
             }
-            let acquere = acquired_lock.lock().await;
+            //a room being synchronised is unlocked by its own task when it ends (the connection is gone, its queries fail):
+            //unlocking it here as well would release a lock that has been granted to another connection in the meantime.
+            //only the rooms that have been granted but not processed yet are released here
+            lock_receiver.close();
             let mut rooms: Vec<Uid> = Vec::new();
-            for room in acquere.iter() {
-                rooms.push(*room);
+            while let Ok(room) = lock_receiver.try_recv() {
+                rooms.push(room);
             }
             #[cfg(feature = "verif")]
             for room in &rooms {
